@@ -53,7 +53,7 @@ func (e *Engine) newRun(name, mode string, props []string) *run {
 		mode = e.Mode
 	}
 	return &run{E: e, mode: mode, name: name, props: props, autoTransparent: map[string]bool{}, havocExterns: map[string]bool{},
-		assumedContracts: map[string]bool{}, pvSorts: map[string]*smt.Sort{}, autoUnrolled: map[string]bool{}}
+		assumedContracts: map[string]bool{}, pvSorts: map[string]*smt.Sort{}, autoUnrolled: map[string]bool{}, usedSites: map[string]bool{}}
 }
 
 func sortedKeys(m map[string]bool) []string {
@@ -236,6 +236,14 @@ func (e *Engine) verifyFuncInstance(rep *FuncReport, fn *ssa.Function, fc *contr
 
 	r.written = map[string]bool{}
 	fr.runRegion(nil, nil)
+	for key := range fc.Sites {
+		if !r.usedSites[key] {
+			// an assertion whose anchor (the K-th call of the callee) no longer exists or is unreachable would
+			// silently check nothing
+			r.obls = append(r.obls, &Obligation{Name: name + "#attached[site " + key + "]", Kind: "attached", Props: fc.Props, Func: name,
+				Err: "the call site " + key + " named by a site assertion is not reached in " + name})
+		}
+	}
 
 	// exit state
 	exit := fr.newNode(fn.Blocks[0], nil)
